@@ -421,7 +421,7 @@ fn cmd_run(a: &Args) -> i32 {
         let _ = std::fs::create_dir_all(&replay_dir);
         let inv_file: String = shrink::inv_class(&mv.invariant).chars().map(|c| if c.is_ascii_alphanumeric() || c == '-' || c == '.' { c } else { '_' }).collect();
         replay_path = format!("{}/{}-{:016x}.json", replay_dir, inv_file, case.run_seed);
-        let rf = ReplayFile { harness_version: HARNESS_VERSION.into(), case: mc.clone(), violation: mv.clone(), minimised: true, original_events: orig };
+        let rf = ReplayFile { harness_version: HARNESS_VERSION.into(), build_profile: a.opts.get("profile-tag").cloned().unwrap_or_default(), case: mc.clone(), violation: mv.clone(), minimised: true, original_events: orig };
         std::fs::write(&replay_path, serde_json::to_string_pretty(&rf).unwrap()).expect("write replay file");
         println!("violation in run {} (seed {:#x}): {} at event {}", run, case.run_seed, mv.invariant, mv.at_event);
         println!("  expected: {}", mv.expected);
@@ -547,6 +547,7 @@ fn cmd_gencase(a: &Args) -> i32 {
     let n = case.events.len();
     let rf = ReplayFile {
         harness_version: HARNESS_VERSION.into(),
+        build_profile: a.opts.get("profile-tag").cloned().unwrap_or_default(),
         case,
         violation: Violation { property: p.name().into(), invariant: "process-abort".into(), at_event: 0, expected: "every call returns a value or an HpkeError; the process never aborts".into(), observed: "the simulator process died while executing this run".into() },
         minimised: false,
